@@ -25,15 +25,19 @@ TARGETS = {
     'tweakwcs/linalg.py': {'inv': ['C17', 'C06']},
     'tweakwcs/matchutils.py': {'_xy_2dhist': ['C12', 'C11'], '_estimate_2dhist_shift': ['C12', 'C11'],
                                '_find_peak': ['C12'], '__call__': ['C11']},
-    'tweakwcs/imalign.py': {'align_wcs': ['C13', 'C14', 'C15'], '_max_overlap_pair': ['C15'],
+    'tweakwcs/imalign.py': {'fit_wcs': ['C01', 'C18', 'C09'], 'align_wcs': ['C13', 'C14', 'C15'], '_max_overlap_pair': ['C15'],
                             '_max_overlap_image': ['C15', 'C14']},
     'tweakwcs/wcsimage.py': {'convex_hull': ['C16'], 'fit2ref': ['C01', 'C09'], 'align_to_ref': ['C13', 'C01'],
                              'expand_catalog': ['C14'], 'get_unmatched_cat': ['C14'], 'match2ref': ['C11', 'C13', 'C14'],
-                             '_calc_cat_convex_hull': ['C16'], 'apply_affine_to_wcs': ['C05', 'C13']},
+                             '_calc_cat_convex_hull': ['C16'], 'apply_affine_to_wcs': ['C05', 'C13'],
+                             'calc_bounding_polygon': ['C16', 'C15'], 'intersection_area': ['C16', 'C15'],
+                             'calc_tanp_xy': ['C14', 'C05', 'C11'], 'update_bounding_polygon': ['C16'],
+                             'recalc_catalog_radec': ['C14', 'C13']},
     'tweakwcs/correctors.py': {'set_correction': ['C02', 'C04', 'C18'], '_tpcorr_combine_affines': ['C04', 'C02', 'C03'],
                                '_tp2tp': ['C05', 'C02'], '_linearize': ['C02', 'C18'], 'tanp_pixel_scale': ['C20'],
                                '_update_transformations': ['C03', 'C02']},
 }
+FAMILY = os.environ.get('MUT_FAMILY', 'ops')    # 'ops' (token flips) or 'stmt' (statement deletion, negated conditions)
 OPS = [(' < ', ' <= '), (' <= ', ' < '), (' > ', ' >= '), (' >= ', ' > '), (' == ', ' != '), (' != ', ' == '),
        (' + ', ' - '), (' - ', ' + '), (' * ', ' / '), (' and ', ' or '), (' or ', ' and '), ('True', 'False'),
        ('False', 'True'), (' 0.5 ', ' 0.25 '), (' 1)', ' 2)'), ('[0]', '[1]'), ('[1]', '[0]'), (' - 1', ' - 2'),
@@ -81,9 +85,27 @@ def candidates(rng, per_func):
                     if indoc or line.lstrip().startswith('#') or 'log.' in line or 'raise ' in line:
                         continue
                     code = line.split('#')[0]
-                    for old, new in OPS:
-                        for m in re.finditer(re.escape(old), code):
-                            cand.append((f, fn, i, m.start(), old, new, checks))
+                    if FAMILY == 'ops':
+                        for old, new in OPS:
+                            for m in re.finditer(re.escape(old), code):
+                                cand.append((f, fn, i, m.start(), old, new, checks))
+                    else:
+                        st = code.strip()
+                        ind = len(code) - len(code.lstrip())
+                        nxt = src[i + 1] if i + 1 < len(src) else ''
+                        # statement deletion: a one-line simple statement (balanced brackets, not the only statement of
+                        # its block header, no return/raise/def/class/import/else/try)
+                        simple = (st and not st.endswith((':', ',', '(', '[', '{', '\\')) and
+                                  st.count('(') == st.count(')') and st.count('[') == st.count(']') and
+                                  not re.match(r'(return|raise|def |class |import |from |else|elif|try|except|finally|with |'
+                                               r'for |while |if |pass|break|continue|@|\)|\]|\}|"|\')', st) and
+                                  not src[i - 1].rstrip().endswith((',', '(', '[', '\\', '+', '-', '*', '/', 'and', 'or', '=')))
+                        if simple and ('=' in st or '(' in st):
+                            cand.append((f, fn, i, ind, code[ind:].rstrip('\n'), 'pass', checks))
+                        m = re.match(r'(\s*)(if|elif|while) (.*):\s*$', code)
+                        if m and m.group(2) != 'while':
+                            cand.append((f, fn, i, len(m.group(1)), code[len(m.group(1)):].rstrip('\n'),
+                                         '%s not (%s):' % (m.group(2), m.group(3)), checks))
             rng.shuffle(cand)
             muts += cand[:per_func]
     return muts
